@@ -75,6 +75,11 @@ def Reg.extLast (b : Int) : List Reg → List Reg
   | [r] => [extTail b r]
   | r :: r2 :: rs => r :: extLast b (r2 :: rs)
 
+/-- is the region a single segment -/
+def Reg.isSeg : Reg → Bool
+  | seg _ _ => true
+  | _ => false
+
 /-- residues `lo .. hi-1` of a denotation -/
 def sliceDen (d : List Pos) (lo hi : Int) : List Pos := (d.drop lo.toNat).take (hi - lo).toNat
 
